@@ -542,8 +542,20 @@ def check_integer_subscripts(idx, run):
         loc(cls.module, cls.node))
 
 
+
+PREDICATES = [
+    ('psyclone.psyir.tools.dependency_tools.DependencyTools', '_independent_0_var', True),
+    ('psyclone.psyir.tools.dependency_tools.DependencyTools', '_independent_multi_subscript', True),
+    ('psyclone.psyir.tools.dependency_tools.DependencyTools', '_is_loop_carried_dependency', False),
+    ('psyclone.psyir.tools.dependency_tools.DependencyTools', '_array_access_parallelisable', True),
+    ('psyclone.psyir.tools.dependency_tools.DependencyTools', '_is_scalar_parallelisable', True),
+    ('psyclone.core.symbolic_maths.SymbolicMaths', 'never_equal', True),
+]
+
 def check(idx, run):
     run.explanation = __doc__
+    from sa.guards import check_predicates
+    check_predicates(idx, run, "C08.R7", PREDICATES)
     check_integer_subscripts(idx, run)
     from rules.common_parallel import check_fresh_unknown
     check_fresh_unknown(idx, run, "C08.R5")
